@@ -129,6 +129,9 @@ Proof.
   - destruct H as [H|H]; [discriminate | now apply given_full_old].
 Qed.
 
+Theorem bag_given_full_now order o : In o order -> bag_to_dict rel order o = Some Full.
+Proof. apply bag_given_full. left. reflexivity. Qed.
+
 End Bag.
 
 (* result keys: pairwise different primary keys give pairwise different dictionary keys, none of them None *)
